@@ -144,6 +144,27 @@ CLAIMS['C02'] = dict(
          'normalisation constant.',
     technique='finite-guard partial evaluation (path enumeration over a finite abstract domain) + exact rational algebra on sink-call multisets; loop-carried recurrence recognition')
 
+CLAIMS['C04'] = dict(
+    text='Decides structural necessary conditions: the beam density is zero before the source and beyond the beam length before the '
+         'attenuator is consulted, zero outside the clamp radius when clamping is on, and the direction is the axis for z <= 0; one '
+         'envelope sigma^2(z) = sigma0^2 + z^2 tan^2(divergence) is what the attenuator density, the direction field and the '
+         'bounding geometry use (exact normal forms, sqrt reduced); the direction components are x z^2 t_x^2/sigma_x^2, y z^2 '
+         't_y^2/sigma_y^2, z, normalised -- the field whose streamlines keep x/sigma_x constant; the transverse profile is '
+         'exp(-(x^2/sx^2 + y^2/sy^2)/2)/(2 pi sx sy) times the on-axis density; the stopping coefficient is sum_i (Z_i n_i) '
+         'coeff_i(E_int, sum_j Z_j^2 n_j / Z_i, T_i) and the on-axis density (P/EvToJ(E m))/v exp(-cumulative_trapezoid(S)/v) '
+         'with one speed, sampled on [0, length]. Does not decide particle conservation as an integral, monotonic decay or '
+         'trapezoid accuracy.',
+    technique='guard dominance, exact rational normal forms with sqrt reduction, call-argument provenance (wiring) checks')
+CLAIMS['C05'] = dict(
+    text='Decides structural necessary conditions: CX radiance = (1/4pi) n_beam n_rec q with q = (q_1 + sum k_i q_i)/(1 + sum k_i), '
+         'the same k_i in numerator and denominator (the weighted-mean form implying min q <= q <= max q for k >= 0); beam population '
+         '= sum (Z n) c / sum (Z n); beam emission = (1/4pi) n_beam sum_i Z_i n_i q_i(E_int,i, sum_j Z_j^2 n_j / Z_i, T_i); every '
+         'BeamCXPEC.evaluate call, ground and excited, receives (interaction energy, receiver temperature, ion density, Z-effective, '
+         '|B|) in that order by provenance, the interaction energy deriving from beam direction, beam energy and receiver flow; zero '
+         'beam or receiver density returns the untouched spectrum before any rate; Plasma.z_effective = sum n Z^2 / sum n Z over '
+         'ions, ion_density = sum n. Does not decide numeric totals or provider behaviour for neutrals.',
+    technique='exact rational normal forms with formal loop sums, call-argument provenance, guard ordering')
+
 # ---- everything not claimed above is pending / not applicable
 _pending = 'check not built yet in this session (see DESIGN.md build order); not claimed until it is'
 for _p in ['C%02d' % i for i in range(1, 21)]:
